@@ -119,7 +119,6 @@ Proof.
   rewrite P.
   assert (R : forall sp', rollback m t (t, []) = Ok sp' -> sp' = (t, [])).
   { unfold rollback. destruct (waiting m); [|intros sp' [= <-]; reflexivity].
-    destruct (cur_ctx m); [|discriminate].
     intros sp'. destruct (_ && _); intros [= <-]; reflexivity. }
   destruct (rollback m t (t, [])) as [sp'|] eqn:Rb; [|discriminate].
   rewrite (R sp' eq_refl). simpl.
